@@ -91,6 +91,16 @@ def cases(draw):
         # the search is first run with a small budget, then the budget is raised and Solve is called again: the
         # statement is about the Solve that ends with the accuracy stop, however the trials before it were spent
         case["first_limit"] = draw(st.sampled_from([3, 5, 10, 20, 40]))
+        if draw(st.booleans()):
+            # ... on a box all of whose sides are shorter than 1 (the accuracy is a length on the unit cube of the
+            # curve, not in the units of the box)
+            f = draw(st.sampled_from([0.5, 0.1, 0.01, 1e-3]))
+            rec = case["recipe"]
+            wmax = max(b - a for a, b in zip(rec["lower"], rec["upper"]))
+            f = f / wmax if wmax >= 1.0 else 1.0     # the longest side becomes f (a box that is small already stays)
+            mid = [(a + b) / 2 for a, b in zip(rec["lower"], rec["upper"])]
+            half = [(b - a) / 2 * f for a, b in zip(rec["lower"], rec["upper"])]
+            case["recipe"] = dict(rec, lower=[c - h for c, h in zip(mid, half)], upper=[c + h for c, h in zip(mid, half)])
     return case
 
 
